@@ -88,6 +88,11 @@ def build_input(rng, tier):
         return b"<svg>" + pre + blob(rng, n, b"abc"), "open-other"
     if shape == 7:  # multi-byte text cut anywhere
         return "".join(rng.choice("é€😀a") for _ in range(n // 3)).encode(), "multibyte-text"
+    if shape == 8:  # deep nesting of elements with long distinct names (names are owned by the stack)
+        d = rng.choice([2, 8, 9, 16, 17, 33])
+        ln = rng.choice([13, 100, 1000, 3000 if tier == "thorough" else 1500])
+        doc = b"".join(b"<x%d-" % i + b"n" * ln + b">" for i in range(d))
+        return doc + b"<span>x</span>", "deep-long-names"
     # mixed fragments
     parts = [fragment(rng, tier) for _ in range(rng.randrange(1, 9))]
     return b"".join(parts), "mixed"
